@@ -108,3 +108,8 @@
 ; attempts the client sleeps on (a >= 2); written out as a table up to the cap
 (define-fun backoffNs ((a Int)) Int
   (ite (= a 2) 50000000 (ite (= a 3) 150000000 (ite (= a 4) 350000000 (ite (= a 5) 750000000 1000000000)))))
+
+; ---- identity of a byte view (object, offset, length): the key of ghost attributes of a parsed
+; message (its code, its status strings). Uninterpreted: obligations hold for every interpretation,
+; in particular the injective one.
+(declare-fun viewId (Int Int Int) Int)
